@@ -994,7 +994,27 @@ func (m *Machine) runOnce(name string) (fatal string, completed bool) {
 	return "", true
 }
 
+// foreignPanic: the panic was raised while executing code that is neither comet's nor a
+// harness's nor a dependency model's (standard-library internals reached without an
+// intrinsic): an encoding gap, not a finding.
+func foreignPanic() (string, bool) {
+	w := lastPanicWhere
+	if w == "" || w == "?" {
+		return "", false
+	}
+	parts := strings.Split(w, " > ")
+	inner := parts[len(parts)-1]
+	if strings.Contains(inner, cometPath) || strings.Contains(inner, "RoaringBitmap") {
+		return "", false
+	}
+	// closures / methods of comet invoked from library code (sort, heap) are named with comet's path; anything else is foreign
+	return inner, true
+}
+
 func (x *Explorer) panicCandidate(msg string) {
+	if inner, foreign := foreignPanic(); foreign {
+		panic(engineError{"unmodelled-callee: panic inside " + inner + ": " + msg})
+	}
 	if x.Concrete {
 		x.Observed = append(x.Observed, "PANIC "+msg)
 		return
